@@ -34,3 +34,31 @@ package digest
 //@   trusted
 //@   modifies nothing
 //@   ensures result.value == dgInst(d.value)
+
+// Set algebra as seen by callers that only route sets (C17): the difference is
+// a function of the two operands (identified by their backing arrays). The
+// algorithm itself is not verified here (trusted; it belongs to C20).
+//@ ufunc gdiOnlyA(int, int) int
+//@ ufunc gdiBoth(int, int) int
+//@ ufunc gdiOnlyB(int, int) int
+//@ func GetDifferenceAndIntersection
+//@   trusted
+//@   modifies nothing
+//@   ensures base(result0.digests) == gdiOnlyA(base(setA.digests), base(setB.digests))
+//@   ensures base(result1.digests) == gdiBoth(base(setA.digests), base(setB.digests))
+//@   ensures base(result2.digests) == gdiOnlyB(base(setA.digests), base(setB.digests))
+
+// ExistenceCache as seen by its user (C17): which set was filtered, what came
+// back, and what was added. Its expiry logic (clock, eviction set) is not
+// verified here (trusted).
+//@ ghost ecRemoveRes(ref) int
+//@ ghost ecAdds(ref) int
+//@ ghost ecAddArg(ref) int
+//@ func (*ExistenceCache).RemoveExisting
+//@   trusted
+//@   modifies ecRemoveRes(ec)
+//@   ensures ecRemoveRes(ec) == base(result.digests)
+//@ func (*ExistenceCache).Add
+//@   trusted
+//@   modifies ecAdds(ec), ecAddArg(ec)
+//@   ensures ecAdds(ec) == old(ecAdds(ec)) + 1 && ecAddArg(ec) == base(digests.digests)
